@@ -202,8 +202,15 @@ def lookup_case(policy, query_form):
         else:
             dr = abs_(api, tsi(r) - qsi)
             dj = abs_(api, tsi(j) - qsi)
-            api.check(P + "/minimises_distance", api.le(dr, dj))
-            api.check(P + "/ties_to_the_earlier", api.not_(api.and_(api.eq(dj, dr), api.lt(j, r))))
+            if api.mode == "sym":
+                api.check(P + "/minimises_distance", api.le(dr, dj))
+                api.check(P + "/ties_to_the_earlier", api.not_(api.and_(api.eq(dj, dr), api.lt(j, r))))
+            else:
+                # floats: distances that differ by rounding only are neither "smaller" nor "tied"
+                tol = max(abs(dr), abs(dj)) * 1e-9
+                api.check(P + "/minimises_distance", dr <= dj + tol)
+                if dj == dr and query_form == "number":
+                    api.check(P + "/ties_to_the_earlier", not (j < r))
 
     return Case(cid, run, functions=["RDTrajectory.get_sample_index", "RDTrajectory._get_sample_index_" + policy,
                                      "UnitValue.__init__ (convert)", "UnitValue comparisons"], max_paths=20000)
